@@ -14,9 +14,9 @@ def main():
     shared = mk_model(cfg)
     objs = [mk_teams(shared, job["teams"]) for job in jobs]
     thunks = [lambda job=job, o=o: run_job(shared, job, o) for job, o in zip(jobs, objs)]
-    s = Scheduler(thunks, [tuple(p) for p in case["points"]], opcodes=bool(case.get("opcodes")), watch=shared, on_write=case.get("on_write") or ())
+    s = Scheduler(thunks, [tuple(p) for p in case["points"]], opcodes=bool(case.get("opcodes")), watch=shared, on_write=case.get("on_write") or (), on_touch=case.get("on_touch") or ())
     results, errors = s.run()
-    json.dump({"results": results, "errors": [repr(e) if e is not None else None for e in errors], "switches": s.switches, "trace": s.trace}, sys.stdout)
+    json.dump({"results": results, "errors": [repr(e) if e is not None else None for e in errors], "switches": s.switches, "trace": s.trace, "touches": s.touches}, sys.stdout)
 
 
 if __name__ == "__main__":
